@@ -6,13 +6,12 @@
 package vks
 
 import (
-	"errors"
-
+	"github.com/cossacklabs/acra/keystore"
 	"github.com/cossacklabs/themis/gothemis/keys"
 )
 
-// ErrNoKey is returned for an identity without keys.
-var ErrNoKey = errors.New("vks: no key for this id")
+// ErrNoKey is returned for an identity without keys (the error the real key stores use).
+var ErrNoKey = keystore.ErrKeysNotFound
 
 // Store holds keys newest-first per client id.
 type Store struct {
@@ -136,3 +135,9 @@ func (s *Store) GetLogSecretKey() ([]byte, error) {
 	}
 	return dup(s.LogKey), nil
 }
+
+// GeneratePoisonKeyPair is not supported: harnesses provide poison keys explicitly.
+func (s *Store) GeneratePoisonKeyPair() error { return ErrNoKey }
+
+// GeneratePoisonSymmetricKey is not supported: harnesses provide poison keys explicitly.
+func (s *Store) GeneratePoisonSymmetricKey() error { return ErrNoKey }
